@@ -52,3 +52,62 @@ fn tick_layout() {
 // gcd/swap branches for symbolic lengths (50 min, no end); with the memmove branch stubbed in, propositional reduction ran out of memory
 // (62 GB) on the symbolic-offset memmove, `--arrays-uf-always` did not finish in 18 min and the SMT back end crashed. The byte-level
 // contract is proved deductively instead (Verus, fragment pino_tick_arrays), with the rotation and the unsafe view as assumed shims.
+
+/// C12(ii): every field the Pinocchio Whirlpool view reads is the field the Anchor (Borsh) account deserialises from the same 653 bytes
+#[kani::proof]
+#[kani::unwind(33)]
+fn whirlpool_view_reads() {
+    let bytes: [u8; 653] = kani::any();
+    let w = { let mut data: &[u8] = &bytes[8..]; Whirlpool::deserialize(&mut data).unwrap() };
+    {
+        let view: &MemoryMappedWhirlpool = unsafe { &*(bytes.as_ptr() as *const MemoryMappedWhirlpool) };
+        assert!(view.tick_spacing() == w.tick_spacing);
+        assert!(view.liquidity() == w.liquidity);
+        assert!(view.sqrt_price() == w.sqrt_price);
+        assert!(view.tick_current_index() == w.tick_current_index);
+        assert!(view.token_mint_a() == &w.token_mint_a.to_bytes());
+        assert!(view.token_mint_b() == &w.token_mint_b.to_bytes());
+        assert!(view.token_vault_a() == &w.token_vault_a.to_bytes());
+        assert!(view.token_vault_b() == &w.token_vault_b.to_bytes());
+        assert!(view.fee_growth_global_a() == w.fee_growth_global_a);
+        assert!(view.fee_growth_global_b() == w.fee_growth_global_b);
+        assert!(view.reward_last_updated_timestamp() == w.reward_last_updated_timestamp);
+        let ri = view.reward_infos();
+        let mut k = 0;
+        while k < 3 {
+            assert!(ri[k].mint() == &w.reward_infos[k].mint.to_bytes());
+            assert!(ri[k].vault() == &w.reward_infos[k].vault.to_bytes());
+            assert!(ri[k].extension() == &w.reward_infos[k].extension);
+            assert!(ri[k].emissions_per_second_x64() == w.reward_infos[k].emissions_per_second_x64);
+            assert!(ri[k].growth_global_x64() == w.reward_infos[k].growth_global_x64);
+            assert!(ri[k].initialized() == w.reward_infos[k].initialized());
+            k += 1;
+        }
+    }
+}
+
+/// C12(ii): the one Pinocchio writer of the Whirlpool view changes exactly liquidity, the three reward growths and the reward timestamp
+#[kani::proof]
+#[kani::unwind(33)]
+fn whirlpool_view_writes() {
+    let mut bytes: [u8; 653] = kani::any();
+    let w = { let mut data: &[u8] = &bytes[8..]; Whirlpool::deserialize(&mut data).unwrap() };
+    let liq: u128 = kani::any(); let g: [u128; 3] = kani::any(); let ts: u64 = kani::any();
+    {
+        let view: &mut MemoryMappedWhirlpool = unsafe { &mut *(bytes.as_mut_ptr() as *mut MemoryMappedWhirlpool) };
+        view.update_liquidity_and_reward_growth_global(liq, &g, ts);
+    }
+    let w2 = { let mut data: &[u8] = &bytes[8..]; Whirlpool::deserialize(&mut data).unwrap() };
+    let mut expect = w.clone();
+    expect.liquidity = liq; expect.reward_last_updated_timestamp = ts;
+    expect.reward_infos[0].growth_global_x64 = g[0]; expect.reward_infos[1].growth_global_x64 = g[1]; expect.reward_infos[2].growth_global_x64 = g[2];
+    assert!(w2.whirlpools_config == expect.whirlpools_config && w2.whirlpool_bump == expect.whirlpool_bump && w2.tick_spacing == expect.tick_spacing);
+    assert!(w2.fee_tier_index_seed == expect.fee_tier_index_seed && w2.fee_rate == expect.fee_rate && w2.protocol_fee_rate == expect.protocol_fee_rate);
+    assert!(w2.liquidity == expect.liquidity && w2.sqrt_price == expect.sqrt_price && w2.tick_current_index == expect.tick_current_index);
+    assert!(w2.protocol_fee_owed_a == expect.protocol_fee_owed_a && w2.protocol_fee_owed_b == expect.protocol_fee_owed_b);
+    assert!(w2.token_mint_a == expect.token_mint_a && w2.token_vault_a == expect.token_vault_a && w2.fee_growth_global_a == expect.fee_growth_global_a);
+    assert!(w2.token_mint_b == expect.token_mint_b && w2.token_vault_b == expect.token_vault_b && w2.fee_growth_global_b == expect.fee_growth_global_b);
+    assert!(w2.reward_last_updated_timestamp == expect.reward_last_updated_timestamp);
+    let mut k = 0;
+    while k < 3 { assert!(w2.reward_infos[k] == expect.reward_infos[k]); k += 1; }
+}
